@@ -165,6 +165,25 @@ class Result:
     pass
 
 
+class MemBudget:
+    def __init__(self, total):
+        import threading
+        self.total, self.free, self.cv = total, total, threading.Condition()
+
+    def acquire(self, n):
+        n = min(n, self.total)
+        with self.cv:
+            while self.free < n:
+                self.cv.wait()
+            self.free -= n
+
+    def release(self, n):
+        n = min(n, self.total)
+        with self.cv:
+            self.free += n
+            self.cv.notify_all()
+
+
 def parse_kani(out):
     r = Result()
     r.checks_total = r.checks_failed = r.unreachable = 0
@@ -432,11 +451,19 @@ def check_kani(prop, tier, seed, only=None, jobs=None, extra_results=None):
     log(f"[{prop}] built harness crate in {bt:.0f}s; running {len(hs)} harness(es), tier={tier}")
     jobs = jobs or int(os.environ.get("VERIF_JOBS", "7" if tier == "quick" else "5"))
     # memory is the limit (R7): never start more solver processes than fit into ~56 GB of address-space limits
-    max_mem = max([(h.mem_gb or (12 if tier == "quick" else 24)) for h in hs])
-    jobs = max(1, min(jobs, 56 // max_mem))
+    # a memory budget instead of a fixed job count: a harness starts when its address-space cap fits into what is left
+    budget = MemBudget(int(os.environ.get("VERIF_MEM_GB", "56")))
+
+    def run_budgeted(h):
+        need = h.mem_gb or (12 if tier == "quick" else 24)
+        budget.acquire(need)
+        try:
+            return run_harness(h, workdir, tier, logdir)
+        finally:
+            budget.release(need)
     results = {}
     with ThreadPoolExecutor(max_workers=jobs) as ex:
-        futs = {ex.submit(run_harness, h, workdir, tier, logdir): h for h in hs}
+        futs = {ex.submit(run_budgeted, h): h for h in hs}
         for f in as_completed(futs):
             h = futs[f]
             r = f.result()
